@@ -1,11 +1,14 @@
 package ep
 
 import (
+	"context"
 	"fmt"
+	"net"
 	"sort"
 	"strings"
 	"time"
 
+	"github.com/emersion/go-msgauth/authres"
 	"github.com/foxcpp/go-mockdns"
 	"github.com/foxcpp/maddy/framework/config"
 	"github.com/foxcpp/maddy/framework/log"
@@ -42,6 +45,34 @@ import (
 type c06Tx struct {
 	*cTx
 	plans map[string]*actors.CheckPlan // per check label
+	// DMARC dimension: policy published for the From domain ("" = the message
+	// has no From field) and what the checks report about SPF/DKIM
+	dm   string // "", norecord, p-none, quarantine, reject, tempfail
+	auth string // fail, dkim-pass, spf-pass, absent
+}
+
+// slowTXT delays TXT lookups and, like the real resolver, gives up when the
+// context is cancelled.
+type slowTXT struct {
+	*mockdns.Resolver
+	w *c06World
+}
+
+func (r slowTXT) LookupTXT(ctx context.Context, name string) ([]string, error) {
+	simrt.Point("dns:txt", name)
+	if d := r.w.dnsDelay; d > 0 {
+		r.w.s.Stat("fault_check_dmarc_lookup_slow")
+		t := time.NewTimer(d)
+		select {
+		case <-t.C:
+		case <-ctx.Done():
+			t.Stop()
+			r.w.s.Stat("dmarc_lookup_cancelled")
+			return nil, &net.DNSError{Err: ctx.Err().Error(), Name: name}
+		}
+		simrt.Yield("dns:txt-done")
+	}
+	return r.Resolver.LookupTXT(ctx, name)
 }
 
 type c06World struct {
@@ -54,6 +85,8 @@ type c06World struct {
 	txs      []*c06Tx
 	// noIgnore: this execution replaces every 'ignore' verdict by 'none'
 	noIgnore bool
+	dmarc    bool          // the pipeline applies DMARC
+	dnsDelay time.Duration // latency of the policy lookup
 }
 
 func (w *c06World) genScenario() {
@@ -64,6 +97,8 @@ func (w *c06World) genScenario() {
 	w.xGlobal = s.T.Choose(st, 2) == 1
 	w.xInD1 = s.T.Choose(st, 2) == 1
 	w.partial = map[string]bool{"t1": s.T.Choose(st, 2) == 1, "t2": s.T.Choose(st, 2) == 1}
+	w.dmarc = s.T.Choose(st, 3) != 0
+	w.dnsDelay = []time.Duration{0, 0, 100 * time.Millisecond, 10 * time.Second}[s.T.Choose(st, 4)]
 	w.genTxs()
 }
 
@@ -74,7 +109,7 @@ func stripIgnore(p *actors.CheckPlan) *actors.CheckPlan {
 		}
 		return v
 	}
-	q := &actors.CheckPlan{StateErr: p.StateErr, Conn: f(p.Conn), Sender: f(p.Sender), Body: f(p.Body), Rcpt: map[string]actors.Verdict{}}
+	q := &actors.CheckPlan{StateErr: p.StateErr, Conn: f(p.Conn), Sender: f(p.Sender), Body: f(p.Body), BodyAuth: p.BodyAuth, Rcpt: map[string]actors.Verdict{}}
 	for k, v := range p.Rcpt {
 		q.Rcpt[k] = f(v)
 	}
@@ -132,6 +167,7 @@ func (w *c06World) build06() error {
 	cfg := []config.Node{
 		node("hostname", "mx.sim.example"), node("tls", "off"),
 		node("defer_sender_reject", map[bool]string{true: "yes", false: "no"}[w.deferRj]),
+		node("dmarc", map[bool]string{true: "yes", false: "no"}[w.dmarc]),
 		block("check", nil, global...),
 		block("source", []string{"origin.example"},
 			block("check", nil, node("&S")),
@@ -153,7 +189,12 @@ func (w *c06World) build06() error {
 	}
 	w.endp = mod.(*smtpendp.Endpoint)
 	w.endp.Log = log.Logger{Out: log.NopOutput{}, Name: name}
-	w.endp.VerifSetResolver(&mockdns.Resolver{Zones: map[string]mockdns.Zone{}})
+	w.endp.VerifSetResolver(slowTXT{w: w, Resolver: &mockdns.Resolver{Zones: map[string]mockdns.Zone{
+		"_dmarc.dm-p-none.example.":     {TXT: []string{"v=DMARC1; p=none"}},
+		"_dmarc.dm-quarantine.example.": {TXT: []string{"v=DMARC1; p=quarantine"}},
+		"_dmarc.dm-reject.example.":     {TXT: []string{"v=DMARC1; p=reject"}},
+		"_dmarc.dm-tempfail.example.":   {Err: &net.DNSError{Err: "scripted SERVFAIL", Name: "_dmarc.dm-tempfail.example.", IsTemporary: true}},
+	}}})
 	return w.endp.Init(config.NewMap(nil, config.Node{Children: cfg}))
 }
 
@@ -176,8 +217,15 @@ func (w *c06World) genTxs() {
 				tx.Rcpts = append(tx.Rcpts, r)
 			}
 		}
-		tx.Payload = []byte("Subject: sim " + tx.Marker + "\r\nX-Sim-Tx: " + tx.Marker + "\r\n\r\nbody\r\n")
 		ctx := &c06Tx{cTx: tx, plans: map[string]*actors.CheckPlan{}}
+		ctx.dm = []string{"", "norecord", "p-none", "quarantine", "quarantine", "reject", "tempfail"}[s.T.Choose(st, 7)]
+		ctx.auth = []string{"fail", "fail", "dkim-pass", "spf-pass", "absent"}[s.T.Choose(st, 5)]
+		hdr := "Subject: sim " + tx.Marker + "\r\nX-Sim-Tx: " + tx.Marker + "\r\n"
+		fromDom := "dm-" + ctx.dm + ".example"
+		if ctx.dm != "" {
+			hdr += "From: <who@" + fromDom + ">\r\n"
+		}
+		tx.Payload = []byte(hdr + "\r\nbody\r\n")
 		for _, n := range []string{"G", "X", "S", "D1", "D2"} {
 			p := &actors.CheckPlan{Rcpt: map[string]actors.Verdict{}}
 			p.Conn = w.genVerdict("conn")
@@ -195,6 +243,18 @@ func (w *c06World) genTxs() {
 				}
 			}
 			ctx.plans[n] = p
+		}
+		// what the (global) check G reports about SPF and DKIM
+		dkim := &authres.DKIMResult{Value: authres.ResultFail, Domain: "unrelated.example"}
+		spf := &authres.SPFResult{Value: authres.ResultFail, From: "unrelated.example"}
+		switch ctx.auth {
+		case "dkim-pass":
+			dkim = &authres.DKIMResult{Value: authres.ResultPass, Domain: fromDom}
+		case "spf-pass":
+			spf = &authres.SPFResult{Value: authres.ResultPass, From: fromDom}
+		}
+		if ctx.auth != "absent" {
+			ctx.plans["G"].BodyAuth = []authres.Result{dkim, spf}
 		}
 		w.txByFrom[tx.From] = ctx
 		w.txs = append(w.txs, ctx)
@@ -373,6 +433,18 @@ func (w *c06World) model(tx *c06Tx) c06Expect {
 			e.mustQ = true
 		}
 	}
+	// DMARC, applied after all body checks. The lookup is asynchronous; its
+	// latency must not change the result.
+	if w.dmarc {
+		switch {
+		case tx.dm == "tempfail":
+			e.dataReject = true // fails closed
+		case tx.auth == "fail" && tx.dm == "reject":
+			e.dataReject = true
+		case tx.auth == "fail" && tx.dm == "quarantine":
+			e.mustQ = true
+		}
+	}
 	return e
 }
 
@@ -505,7 +577,7 @@ func RunC06(s *simrt.Sim, a *harness.Args, r *harness.Result) {
 			}
 		}
 	}
-	r.Shape = fmt.Sprintf("lmtp=%v defer=%v xg=%v xd=%v|%s", w.lmtp, w.deferRj, w.xGlobal, w.xInD1, w.planShape())
+	r.Shape = fmt.Sprintf("lmtp=%v defer=%v xg=%v xd=%v dmarc=%v/%v|%s", w.lmtp, w.deferRj, w.xGlobal, w.xInD1, w.dmarc, w.dnsDelay, w.planShape())
 	st := s.Stats()
 	nf := 0
 	for k, v := range st {
@@ -520,7 +592,7 @@ func RunC06(s *simrt.Sim, a *harness.Args, r *harness.Result) {
 func (w *c06World) planShape() string {
 	var sb strings.Builder
 	for _, tx := range w.txs {
-		fmt.Fprintf(&sb, "[%s %v", tx.From, tx.Rcpts)
+		fmt.Fprintf(&sb, "[%s %v dm=%s/%s", tx.From, tx.Rcpts, tx.dm, tx.auth)
 		for _, n := range []string{"G", "X", "S", "D1", "D2"} {
 			p := tx.plans[n]
 			fmt.Fprintf(&sb, " %s:%d%d%d", n, p.Conn, p.Sender, p.Body)
